@@ -164,13 +164,16 @@ def judge_pool(ctx, groups):
 REAL_CHILD = r"""
 import sys, json, time, logging
 logging.disable(logging.CRITICAL)
-n, w, m, raises, tol, tdur, cdelay = json.loads(sys.argv[1])
+n, w, m, raises, tol, tdur, cdelay, unpick = json.loads(sys.argv[1])
 import annet.parallel as P
-raises = set(raises)
+raises = set(raises) - set(unpick)
+unpick = set(unpick)
 attempts = {}
 def f(i):
     time.sleep(tdur * ((i * 7) % 5) / 4.0)
     k = attempts[i] = attempts.get(i, 0) + 1
+    if i in unpick:
+        return {"id": i, "callback": (lambda: i)}      # a value that cannot be sent to the parent: the id must come back as a failure
     if i in raises:
         if i % 2:
             raise BrokenPipeError("task %d: network failure on every attempt" % i)
@@ -352,7 +355,12 @@ def run(ctx):
     grid = []
     for k in range(nreal):
         n, w, m, raises, tol = rnd.choice([c for c in cfgs if c[0] >= 2])
-        grid.append([n, w, m, list(raises), tol, rnd.choice([0.0, 0.004, 0.02]), rnd.choice([0.0, 0.01, 0.05, 0.12])])
+        # some failing ids fail by RETURNING a value that cannot be pickled (multi-process branch only: pool size >= 2)
+        unpick = [i for i in raises if i % 2 == 0] if min(w, n) >= 2 and rnd.random() < 0.6 else []
+        grid.append([n, w, m, list(raises), tol, rnd.choice([0.0, 0.004, 0.02]), rnd.choice([0.0, 0.01, 0.05, 0.12]), unpick])
+    grid += [[8, 3, 0, [4], True, 0.0, 0.0, [4]], [12, 3, 2, [4, 9], True, 0.004, 0.01, [4, 9]], [6, 2, 1, [2], True, 0.0, 0.05, [2]],
+             [7, 4, 3, [2, 6], False, 0.004, 0.0, [2, 6]]]
+    nreal = len(grid)
     with cf.ThreadPoolExecutor(max_workers=core.NCPU) as ex:
         for k, (args, res) in enumerate(zip(grid, ex.map(real_run, grid))):
             n, w, m, raises, tol = args[:5]
